@@ -231,7 +231,11 @@ class ByteInterval(Node):
     @initialized_size.setter
     def initialized_size(self, value: int) -> None:
         if value > len(self.contents):
-            self.contents += b"\0" * (value - len(self.contents))
+            # A new buffer, as for truncation below: the bytearray may be
+            # shared with another interval, which must not grow with this one.
+            self.contents = self.contents + b"\0" * (
+                value - len(self.contents)
+            )
         elif value < len(self.contents):
             self.contents = self.contents[:value]
         # As ByteInterval::setInitializedSize does in the C++ API: the
